@@ -276,3 +276,25 @@ def check_pairing(ctx, ob, program, views, pairing, skip_methods=("__init__",), 
 ROOT_HANDLERS = {"have_event", "accept", "release", "renege", "finish_service", "change_shift", "slotted_service",
                  "change_customer_class_while_waiting", "update_next_event_date", "wrap_up_servers",
                  "find_server_utilisation", "block_individual", "release_blocked_individual"}
+
+
+# ---- path conditions ----------------------------------------------------------------------------------------
+
+def path_condition(events, upto=None, transform=None):
+    """unit facts implied by the GUARD events of a path prefix (events before index `upto`)"""
+    from . import guards
+    facts = {}
+    for i, e in enumerate(events):
+        if upto is not None and i >= upto:
+            break
+        if e.kind == "guard":
+            f = e.d["formula"]
+            if transform is not None:
+                f = transform(f)
+            guards.assume(f, e.pol, facts)
+    return facts
+
+
+def formula_of(walker, test, frame, env):
+    from . import guards
+    return guards.norm(test, lambda x: walker.canon(x, frame, env))
